@@ -49,6 +49,10 @@ package parser
 //@ func ls
 //@   trusted
 //@   deterministic
+//@   structure uses-only-globals lexerStates
+// Releasing a lexer's state touches the registry only (no pool, no cache that another lexer could draw from).
+//@ func DeleteLexerState
+//@   structure uses-only-globals lexerStates
 
 // ANTLR's token loop runs the lexer's *_Action callbacks (verified below) on this lexer's state and touches
 // nothing else of it: level and prevToken are written only by getNextToken.
